@@ -23,9 +23,9 @@ Ends(s, i, acc) == IF i >= Len(s) THEN acc
                    ELSE IF s[i] = 10 /\ s[i + 1] = 10 THEN Ends(s, i + 2, Append(acc, i + 1))
                    ELSE Ends(s, i + 1, acc)
 
-VARIABLES l, ends, msgs, pos, ninv, replied, finished, hsdone, viol
-vars == <<l, ends, msgs, pos, ninv, replied, finished, hsdone, viol>>
-Init == l = 1 /\ ends = <<>> /\ msgs = <<>> /\ pos = 0 /\ ninv = 0 /\ replied = {} /\ finished = {} /\ hsdone = 0 /\ viol = {}
+VARIABLES l, ends, msgs, pos, ninv, replied, finished, hsdone, viol, invSeq
+vars == <<l, ends, msgs, pos, ninv, replied, finished, hsdone, viol, invSeq>>
+Init == l = 1 /\ ends = <<>> /\ msgs = <<>> /\ pos = 0 /\ ninv = 0 /\ replied = {} /\ finished = {} /\ hsdone = 0 /\ viol = {} /\ invSeq = <<>>
 
 Line == Rec[l]
 Items(line, kind) == {k \in 1..Len(line.out) : line.out[k].o = kind}
@@ -42,7 +42,7 @@ Next ==
   /\ l <= N /\ l' = l + 1
   /\ IF Line.ev = "reset"
      THEN /\ ends' = Ends(Line.stream, 1, <<>>) /\ msgs' = Line.msgs /\ pos' = 0 /\ ninv' = 0
-          /\ replied' = {} /\ finished' = {} /\ hsdone' = 0 /\ viol' = {}
+          /\ replied' = {} /\ finished' = {} /\ hsdone' = 0 /\ viol' = {} /\ invSeq' = <<>>
      ELSE IF Line.ev = "end"
      THEN /\ LET v == viol \cup (IF Line.leftover # 0 THEN {"PartialFrame"} ELSE {})
                             \cup (IF Line.closed THEN {"PluginStoppedReading"} ELSE {})
@@ -50,21 +50,27 @@ Next ==
                             \cup (IF Complete(pos) = Len(ends) /\ pos = ends[Len(ends)] => ninv = Cardinality(Dispatching)
                                   THEN {} ELSE {"MissingDispatch"})
              IN v # {} => PrintT(<<"WIREVIOL", Line.run, v>>)
-          /\ UNCHANGED <<ends, msgs, pos, ninv, replied, finished, hsdone, viol>>
+          /\ UNCHANGED <<ends, msgs, pos, ninv, replied, finished, hsdone, viol, invSeq>>
      ELSE LET p1 == IF Line.ev = "chunk" THEN Line.pos ELSE pos
               inv == Items(Line, "invoked")
               frames == Items(Line, "frame")
               \* invocations observed in this step, as message indices in order
-              expNew == ExpectedInv(Complete(p1)) \ ExpectedInv(Complete(pos))
               obsTags == [k \in 1..Cardinality(inv) |-> Line.out[CHOOSE j \in inv : Cardinality({i \in inv : i < j}) = k - 1].tag]
-              expSeq == [k \in 1..Cardinality(expNew) |-> msgs[CHOOSE j \in expNew : Cardinality({i \in expNew : i < j}) = k - 1].tag]
+              inv1 == invSeq \o obsTags
+              \* everything that must have been dispatched once the frames complete at p1 are in: in stream order
+              expAll == LET E == ExpectedInv(Complete(p1)) IN
+                        [k \in 1..Cardinality(E) |-> msgs[CHOOSE j \in E : Cardinality({i \in E : i < j}) = k - 1].tag]
+              dispatchOK == /\ Len(inv1) <= Len(expAll)
+                            /\ \A k \in 1..Len(inv1) : inv1[k] = expAll[k]
+                            /\ (~Line.slow => Len(inv1) = Len(expAll))
               hsNew == {k \in frames : Line.out[k].id \in {"\"gm-1\"", "\"in-2\""}}
               replies == frames \ hsNew
-              fin1 == IF Line.ev = "finish" THEN finished \cup {Line.tag} ELSE finished
+              fin1 == IF Line.ev = "finish" THEN finished \cup {Line.tag}
+                      ELSE IF Line.ev = "finish_many" THEN finished \cup {Line.tags[k] : k \in 1..Len(Line.tags)} ELSE finished
               newRep == {TagOf(Line.out[k].id) : k \in replies}
-              bad == (IF obsTags = expSeq THEN {} ELSE {"Dispatch"})
+              bad == (IF dispatchOK THEN {} ELSE {"Dispatch"})
                      \cup (IF \A k \in frames : Line.out[k].json THEN {} ELSE {"BrokenFrame"})
-                     \cup (IF Line.pending_out = 0 THEN {} ELSE {"PartialFrame"})
+                     \cup (IF Line.pending_out = 0 \/ Line.slow THEN {} ELSE {"PartialFrame"})
                      \* a reply: only for a finished request, once, with that request's own result
                      \cup (IF \A k \in replies :
                                 LET t == TagOf(Line.out[k].id) IN
@@ -74,14 +80,18 @@ Next ==
                                 /\ Line.out[k].kind \in {"result", "error"}
                            THEN {} ELSE {"Reply"})
                      \cup (IF Cardinality(newRep) = Cardinality(replies) THEN {} ELSE {"DuplicateReply"})
-                     \* the reply of a finished request is written in the step that finishes it
-                     \cup (IF Line.ev = "finish" /\ Line.tag \notin newRep THEN {"MissingReply"} ELSE {})
+                     \* the reply of a finished request is written in the step that finishes it (unless the reader is
+                     \* slow: then it is due at the next read step; the `end` line checks that none is missing)
+                     \cup (IF Line.ev = "finish" /\ ~Line.slow /\ Line.tag \notin newRep THEN {"MissingReply"} ELSE {})
+                     \cup (IF Line.ev = "finish_many" /\ ~Line.slow /\ ~({Line.tags[k] : k \in 1..Len(Line.tags)} \subseteq newRep)
+                           THEN {"MissingReply"} ELSE {})
                      \* handshake replies exactly when their request is complete
-                     \cup (IF hsdone + Cardinality(hsNew) = (IF Complete(p1) >= 2 THEN 2 ELSE Complete(p1)) THEN {} ELSE {"Handshake"})
+                     \cup (IF Line.slow \/ hsdone + Cardinality(hsNew) = (IF Complete(p1) >= 2 THEN 2 ELSE Complete(p1)) THEN {} ELSE {"Handshake"})
           IN /\ pos' = p1 /\ ninv' = ninv + Cardinality(inv)
              /\ replied' = replied \cup newRep /\ finished' = fin1
              /\ hsdone' = hsdone + Cardinality(hsNew)
              /\ viol' = viol \cup bad
+             /\ invSeq' = inv1
              /\ UNCHANGED <<ends, msgs>>
 Spec == Init /\ [][Next]_vars
 Accepted == TLCGet("stats").diameter - 1 = N
